@@ -219,6 +219,10 @@ def a_typ(table, t):
     for tok, s in OBS_ONLY_TYP.items():
         if s == n:
             return tok
+    if n.startswith("Optional[") and n.endswith("]"):
+        inner = a_typ(table, n[len("Optional["):-1])
+        if inner != "other" and not inner.startswith("Opt"):
+            return {"int": "OptInt", "str": "OptStr", "bool": "OptBool"}.get(inner, "Opt:" + inner)
     return "other"
 
 
